@@ -159,7 +159,7 @@ def run(pid, tier):
         if vlib.record(V, ["numvm", "random", "--seed", seed, "--n", 2500 if quick else 40000, "--kind", kind, "--out", out]):
             traces.append(out)
     progs, judged, skipped = validate(pid, traces, tag, V, shards=8 if quick else 14)
-    bind = binding_demo(pid, traces[0], d, tag) if traces else {}
+    bind = binding_demo(pid, traces[0], d, tag) if traces and not V.viol else {"skipped": "violations were found"}
     sample = []
     if traces:
         P = vlib.read_ndjson(traces[-1])[0]
